@@ -3,12 +3,15 @@
    clauses of C17.  Total observer: never blocks, accumulates <<trace, index, clause>>.
 
    Family "part" - one trace = one partitioner instance built with a real constructor:
-     reset{fam,ctor,abs,hashfn,fb}   call{kk,h,name,part,n,ret,err,xk,xv}
-       kk: "nil" | "empty" | "h" (bytes chosen so that the injected hash.Hash32 returns h) | "fnv";
+     reset{fam,ctor,abs,hashfn,fb}   call{kk,h,name,part,n,ret,err,xk,xv,mrc}
+       kk: "nil" | "empty" "empty_s" "empty_n" (not nil, no bytes: ByteEncoder([]byte{}), StringEncoder(""),
+           ByteEncoder(nil)) | "h" (bytes chosen so that the injected hash.Hash32 returns h) | "fnv";
+       mrc: "true"/"false": what the instance answers to MessageRequiresConsistency (RequiresConsistency
+           when it is not a DynamicConsistencyPartitioner) for this message, or "panic: ...";
        h: the int32 hash of the key bytes (injected, or hash/fnv computed by the harness);
        err: "" or what happened instead of a return (crash of the subprocess, panic, hang, error)
    Family "prod" - one trace = one topic of a real AsyncProducer talking to a MockBroker:
-     reset{fam,np,leaderless,pk,static,dyn}  submit{id,keyed,part,sc,xout,xtarget}
+     reset{fam,np,leaderless,pk,static,dyn}  submit{id,keyed,ek,part,sc,xout,xtarget}
      offer{id,n,ret,perr} (the wrapped partitioner was called)  wire{id,part} (produce request
      at the broker)  outcome{id,kind,part,err,cls} (Successes()/Errors();
      cls: class of the error, "transport" = connection trouble between client and mock broker)
@@ -48,9 +51,13 @@ CallClauses ==
             "equal_keys_equal_partitions")
   \cup When(cur.ctor = "roundrobin" /\ RRWindowBad, "roundrobin_cycles")
 
+\* a message whose key the partitioner hashes requires consistency (else the producer would offer it the
+\* writable partitions only and the same key would move with the leaders)
+ConsistencyClause == When(KeyedE /\ E.mrc # "true", "hashed_message_requires_consistency")
+
 TCall ==
   /\ E.ev = "call"
-  /\ viol' = viol \cup CallClauses
+  /\ viol' = viol \cup CallClauses \cup ConsistencyClause
   /\ memo' = IF E.err = "" /\ KeyedE THEN memo \cup {<<E.kk, E.h, E.name, E.n, E.ret>>} ELSE memo
   /\ rrh' = IF E.err = "" THEN RRH1 ELSE rrh
   /\ st' = [st EXCEPT !.calls = @ + 1,
